@@ -256,20 +256,23 @@ func genExtra(t *rapid.T, i int) fsx.Tree {
 	n := rapid.IntRange(0, 4).Draw(t, "nextra")
 	for j := 0; j < n; j++ {
 		name := fmt.Sprintf("extra%d", j)
-		switch rapid.IntRange(0, 20).Draw(t, "extrakind") % 8 {
+		switch rapid.IntRange(0, 26).Draw(t, "extrakind") % 9 {
 		case 0:
 			tr = append(tr, fsx.Node{Path: "docs/" + name + ".md", Kind: "file", Content: fmt.Sprintf("doc %d %d", i, j), Mode: 0644, Sec: 1500000100})
 		case 1:
 			tr = append(tr, fsx.Node{Path: "bin/" + name, Kind: "file", Content: "#!/bin/sh\n", Mode: 0755, Sec: 1500000200})
 		case 2:
 			tr = append(tr, fsx.Node{Path: "empty-" + name, Kind: "dir", Mode: 0755, Sec: 1500000300})
-		case 3:
+		case 8:
 			tr = append(tr, fsx.Node{Path: "link-" + name, Kind: "symlink", Target: rapid.SampledFrom([]string{"pkg.txt", "./pkg.txt", "docs/../pkg.txt", ".//pkg.txt"}).Draw(t, "linktarget")},
 				fsx.Node{Path: "docs/about.md", Kind: "file", Content: "about", Mode: 0644, Sec: 1500000050})
 		case 4:
 			tr = append(tr, fsx.Node{Path: "ro/" + name, Kind: "file", Content: "readonly", Mode: 0444, Sec: 1500000400, Nsec: 500000000})
 		case 5:
 			tr = append(tr, fsx.Node{Path: "shared/" + name, Kind: "file", Content: "world-writable", Mode: 0666, Sec: 1500000500})
+		case 3:
+			tr = append(tr, fsx.Node{Path: "Docs-" + name, Kind: "dir", Mode: 0750, Sec: 1500000800}, fsx.Node{Path: "Docs-" + name + "/f", Kind: "file", Content: "upper", Mode: 0640, Sec: 1500000801},
+				fsx.Node{Path: "docs-" + name, Kind: "dir", Mode: 0700, Sec: 1500000802}, fsx.Node{Path: "docs-" + name + "/f", Kind: "file", Content: "lower", Mode: 0600, Sec: 1500000803})
 		case 6:
 			tr = append(tr, fsx.Node{Path: "open-" + name, Kind: "dir", Mode: 0777, Sec: 1500000600}, fsx.Node{Path: "open-" + name + "/f", Kind: "file", Content: "x", Mode: 0600, Sec: 1500000601})
 		default:
